@@ -27,49 +27,52 @@ modelled_bits! {
         let content: u32 = kani::any();
         let mut bv = util::BitVec::new();
         fill(&mut bv, n, content, 16);
+        read_dst(true);
         assert!(bv.len() == n);
         let out = bv.format_binary();
         assert!(out.len() == (n + 7) / 8, "binary output is not ceil(bits / 8) bytes long");
+        kani::cover!(n == 13 && out.len() == 2, "non byte-multiple length padded");
+        kani::cover!(n == 0, "empty output");
+        kani::cover!(n == 16 && out[1] == 0xa5, "two full bytes");
         let i: usize = kani::any();
         kani::assume(i < out.len() * 8);
         let got = (out[i / 8] >> (7 - (i % 8))) & 1 == 1;
         assert!(got == bit(content, n, i), "binary output bit differs from the assembled bit (or padding is not zero)");
-        kani::cover!(n == 13 && out.len() == 2, "non byte-multiple length padded");
-        kani::cover!(n == 0, "empty output");
-        kani::cover!(n == 16 && out[1] == 0xa5, "two full bytes");
         std::mem::forget(bv); std::mem::forget(out);
     }
 }
 
 modelled_bits! {
-    #[kani::unwind(19)]
+    #[kani::unwind(7)]
     fn c11_a_binstr() {
         reset_bitstore();
         let n: usize = kani::any();
-        kani::assume(n <= 16);
+        kani::assume(n <= 4);
         let content: u32 = kani::any();
         let mut bv = util::BitVec::new();
-        fill(&mut bv, n, content, 16);
+        fill(&mut bv, n, content, 4);
+        read_dst(true);
         let s = bv.format_binstr();
         assert!(s.len() == n, "bit string is not one digit per bit");
         let i: usize = kani::any();
         kani::assume(i < n);
         assert!(s.as_bytes()[i] == if bit(content, n, i) { b'1' } else { b'0' }, "bit string digit differs from the assembled bit");
-        kani::cover!(n == 16);
+        kani::cover!(n == 4 && i == 3, "last of 4 digits");
         kani::cover!(n == 1 && s.as_bytes()[0] == b'1');
         std::mem::forget(bv); std::mem::forget(s);
     }
 }
 
 modelled_bits! {
-    #[kani::unwind(19)]
+    #[kani::unwind(7)]
     fn c11_a_hexstr() {
         reset_bitstore();
         let n: usize = kani::any();
-        kani::assume(n <= 16);
+        kani::assume(n <= 4);
         let content: u32 = kani::any();
         let mut bv = util::BitVec::new();
-        fill(&mut bv, n, content, 16);
+        fill(&mut bv, n, content, 4);
+        read_dst(true);
         let s = bv.format_hexstr();
         assert!(s.len() == (n + 3) / 4, "hex string is not ceil(bits / 4) digits long");
         let d: usize = kani::any();
@@ -83,7 +86,7 @@ modelled_bits! {
         let c = s.as_bytes()[d];
         let got = if c >= b'0' && c <= b'9' { c - b'0' } else if c >= b'a' && c <= b'f' { c - b'a' + 10 } else { 255 };
         assert!(got == want, "hex digit differs from the assembled bits (or padding is not zero)");
-        kani::cover!(n == 14 && s.len() == 4, "non nibble-multiple length padded");
+        kani::cover!(n == 3 && s.len() == 1, "non nibble-multiple length padded");
         kani::cover!(got >= 10, "letter digit");
         std::mem::forget(bv); std::mem::forget(s);
     }
@@ -97,6 +100,7 @@ macro_rules! empty_fmt {
             fn $name() {
                 reset_bitstore();
                 let bv = util::BitVec::new();
+                read_dst(true);
                 let out = ($call)(&bv);
                 assert!(($check)(&out), "empty output formatted into a non-empty payload");
                 kani::cover!(true, "formatter returns on empty output");
